@@ -220,6 +220,22 @@ impl Scenario for ConvergeScenario {
                 }
                 _ => {
                     script.push(POp::Disable);
+                    if rng.bool() {
+                        // the database changes while the channel is disabled without leaving an event: only the integrity poll
+                        // of the new connection can tell the master
+                        let n = rng.urange(1, 3);
+                        script.push(POp::Update(
+                            (0..n)
+                                .map(|_| {
+                                    let mut u = gen_update(rng, &ocfg.points, &mut clock);
+                                    u.update_static = true;
+                                    u.event_mode = 2;
+                                    u.flags_only = false;
+                                    u
+                                })
+                                .collect(),
+                        ));
+                    }
                     script.push(POp::Sleep(rng.range(0, 1500)));
                     script.push(POp::Enable);
                 }
@@ -558,7 +574,41 @@ pub fn analyse(
         // (d') without polls: the last thing delivered for a point (event or static) is its current value, unless the newest
         // event of that point fell victim to an overflow
         if unsol_only {
+            // points whose current value was written without leaving an event (an update with events suppressed): nothing but an
+            // integrity poll can carry it, and an older event of the point may legitimately arrive after that poll (its
+            // confirmation was lost) - for them the last STATIC value delivered counts
+            let mut silent_final: std::collections::BTreeSet<(PointType, u16)> = Default::default();
+            for (_, _, op, info) in &run.updates {
+                if !op.update_static || matches!(info, crate::outstation::database::UpdateInfo::NoPoint) {
+                    continue;
+                }
+                if matches!(info, crate::outstation::database::UpdateInfo::NoEvent) {
+                    silent_final.insert((op.ptype, op.index));
+                } else {
+                    silent_final.remove(&(op.ptype, op.index));
+                }
+            }
             for (key, v) in &ledger.mirror {
+                if silent_final.contains(key) {
+                    match last_static.get(key) {
+                        Some((_, m)) if same(key.0, m, v.value, &v.bytes, v.flags, None, false) => {}
+                        other => {
+                            violation.get_or_insert(Violation::new(
+                                "C02/master-picture-differs-at-the-end",
+                                format!("unsolicited-silent-update {:?}", key.0),
+                                format!(
+                                    "{:?}[{}]: the outstation holds value {} flags {:#x}, written without an event; the last static value the master's handler received for it is {:?}",
+                                    key.0,
+                                    key.1,
+                                    v.value,
+                                    v.flags,
+                                    other.map(|(t, m)| (t, m.value, m.flags))
+                                ),
+                            ));
+                        }
+                    }
+                    continue;
+                }
                 let newest = ledger
                     .events
                     .values()
